@@ -39,6 +39,19 @@ pub fn program(decls: &[Declaration]) -> String
 				};
 				fns.push(format!("(F ({}) {})", params.join(" "), b));
 			}
+			// a signature without body: its parameters are declared in a scope of their own
+			Declaration::FunctionHead { parameters, .. } =>
+			{
+				let params: Vec<String> = parameters
+					.iter()
+					.map(|p| match &p.name
+					{
+						Ok(n) => atom(&n.name),
+						Err(_) => "?".to_string(),
+					})
+					.collect();
+				fns.push(format!("(F ({}))", params.join(" ")));
+			}
 			_ => (),
 		}
 	}
@@ -205,6 +218,19 @@ pub fn vprogram(pre: &[Declaration], post: &[Declaration]) -> String
 				}
 				v.push(format!("(R ({}))", u.join(" ")));
 				fns.push(format!("(F ({}) {})", params.join(" "), v.join(" ")));
+			}
+			// a signature without body: its parameters are declared in a scope of their own
+			(Declaration::FunctionHead { parameters, .. }, _) =>
+			{
+				let params: Vec<String> = parameters
+					.iter()
+					.map(|p| match &p.name
+					{
+						Ok(n) => atom(&n.name),
+						Err(_) => "?".to_string(),
+					})
+					.collect();
+				fns.push(format!("(F ({}))", params.join(" ")));
 			}
 			_ => (),
 		}
